@@ -11,6 +11,7 @@ import NeumannModel.Gossip.Model
     conv <batch> <batch> ...               -> fresh replica, merges in order: <changed>/<changed>/.. | <view>
     update_local r m h inc                 -> h:ts:inc | <view>
     suspect r m inc | fail r m | refute r m inc | mark_healthy r m   -> true|false | <view>
+    tick r | sync_time r t                 -> ok | <view>
     view r                                 -> <view>
     mgr_new g loc maxDelta | mgr_add_peer g p | mgr_sync g sender senderTime <batch>
     mgr_suspect g m inc | mgr_alive g m inc | mgr_view g            -> rej=.. own=.. sus=.. | <view>
@@ -139,6 +140,10 @@ def gossipStep (d : DState) (line : String) : DState × String :=
     | _, _ => bad
   | ["mark_healthy", r, m] => match m.toNat? with
     | some m => withRep d r fun s => let (s', ok) := markHealthy s m; (s', showBool ok)
+    | none => bad
+  | ["tick", r] => withRep d r fun s => (tick s, "ok")
+  | ["sync_time", r, t] => match t.toNat? with
+    | some t => withRep d r fun s => (syncTime s t, "ok")
     | none => bad
   | ["view", r] => match r.toNat? with
     | some i => match d.reps[i]? with
